@@ -51,6 +51,13 @@ def jdf_text(prog, malformed=None):
         out.append("END")
         out.append("")
     txt = "\n".join(out) + "\n"
+    if malformed and malformed.startswith("unbound-"):
+        # an extra control flow of the first class carries the unbound identifier kk at the named position
+        tgt = {"unbound-guard": "(kk % 97) == 0 ? ZZ F0(k-1)",
+               "unbound-arg":   "(k % 97) == 0 ? ZZ F0(kk-1)",
+               "unbound-then":  "(k % 97) == 0 ? ZZ F0((k > 0) ? kk : k-1)",
+               "unbound-else":  "(k % 97) == 0 ? ZZ F0((k > 0) ? k-1 : kk)"}[malformed]
+        txt = txt.replace("BODY", "  CTL   ZZ <- %s\n              -> (k %% 97) == 1 ? ZZ F0(k+1)\nBODY" % tgt, 1)
     if malformed == "syntax":
         txt = txt.replace("BODY", "BODDY", 1)
     elif malformed == "paren":
